@@ -21,7 +21,7 @@ instances = [
     S('prio_pair', 'h_prio_pair', (0, 0, 0, 0), bound='both candidate priorities symbolic in 0..2^31-1, role symbolic'),
 ]
 kf_instances = [
-    dict(ANY('h_auth_any', 'kf_auth_any20', 20, 1, QT, 1), known_finding='stun_no_integrity'), dict(c14.RT('kf_rt_keyed_fp', 'ints', 2, 1, 1), known_finding='stun_no_integrity'),
+    dict(ANY('h_auth_any', 'kf_auth_any20', 20, 1, QT, 1), known_finding='stun_no_integrity'),
     dict(S('kf_prio_pair_full', 'h_prio_pair', (1, 0, 0, 0), bound='both candidate priorities symbolic in 0..2^32-1'), known_finding='pair_priority_wraps'),
 ]
 SPEC = dict(
